@@ -16,6 +16,8 @@ type WalletListing struct {
 }
 
 // ListWallets calls Wallets() (solo) and canonicalises the result.
+//
+//go:norace
 func (inst *Instance) ListWallets() ([]WalletListing, error) {
 	var sums []*masswallet.WalletSummary
 	var err error
@@ -34,6 +36,8 @@ func (inst *Instance) ListWallets() ([]WalletListing, error) {
 }
 
 // RemoveWallet requests removal of wallet id.
+//
+//go:norace
 func (inst *Instance) RemoveWallet(id, pass string, solo bool) error {
 	var err error
 	if !inst.RunCall("RemoveWallet", solo, func() { err = inst.WM.RemoveWallet(id, pass) }) {
@@ -52,6 +56,8 @@ func (inst *Instance) RemoveWallet(id, pass string, solo bool) error {
 // hint. src is the harness's knowledge of the wallet (from wherever it was
 // created). The new WalletState starts with no issued addresses known; the
 // caller learns them from GetAddresses.
+//
+//go:norace
 func (inst *Instance) ImportMnemonic(src *WalletState, extHint uint32, solo bool) (*WalletState, error) {
 	var sum *masswallet.WalletSummary
 	var err error
@@ -70,6 +76,8 @@ func (inst *Instance) ImportMnemonic(src *WalletState, extHint uint32, solo bool
 }
 
 // ExportWallet returns the keystore JSON.
+//
+//go:norace
 func (inst *Instance) ExportWallet(id, pass string, solo bool) (string, error) {
 	var js string
 	var err error
@@ -80,6 +88,8 @@ func (inst *Instance) ExportWallet(id, pass string, solo bool) (string, error) {
 }
 
 // ImportKeystore imports an exported keystore.
+//
+//go:norace
 func (inst *Instance) ImportKeystore(src *WalletState, js string, solo bool) (*WalletState, error) {
 	var sum *masswallet.WalletSummary
 	var err error
@@ -96,6 +106,8 @@ func (inst *Instance) ImportKeystore(src *WalletState, js string, solo bool) (*W
 }
 
 // StopAsync launches Stop on a stopper goroutine and returns it.
+//
+//go:norace
 func (inst *Instance) StopAsync() *G {
 	inst.StopRequested = true
 	return inst.Call(RoleStopper, "Stop", func() { inst.WM.Stop() })
@@ -104,6 +116,8 @@ func (inst *Instance) StopAsync() *G {
 // SyncIssued extends the harness's list of issued addresses of an imported
 // wallet to the number of external keys the wallet reports (an import derives
 // at least one address and everything its scan discovered).
+//
+//go:norace
 func (inst *Instance) SyncIssued(ws *WalletState) {
 	wi, err := inst.Use(ws.ID, true)
 	if err != nil {
